@@ -10,12 +10,12 @@ import (
 	"fmt"
 	"unsafe"
 
+	td "github.com/go-text/typesetting-utils/opentype"
 	"github.com/go-text/typesetting/di"
 	"github.com/go-text/typesetting/font"
 	"github.com/go-text/typesetting/language"
 	"github.com/go-text/typesetting/segmenter"
 	"github.com/go-text/typesetting/shaping"
-	td "github.com/go-text/typesetting-utils/opentype"
 	"golang.org/x/image/math/fixed"
 
 	"verifharness/internal/vh"
@@ -681,6 +681,76 @@ func c02Witnesses() []c02Input {
 			}
 		}
 		out = append(out, c02Input{Text: text, Runs: []c02Run{r0, r1}, Truncator: c02Truncator(nil, 0, 0), Tag: "F8", Calls: calls})
+	}
+	// letter spacing over two runs "aaa " + "bbb" (10 px glyphs, 4 px letter spacing applied by the library): the second run
+	// starts a line and is placed on it whole; with and without the trailing whitespace trim, every width around the break
+	{
+		text := []rune("aaa bbb")
+		mk := func(from, to int) c02Run {
+			r := c02Run{Dir: 0, Off: from, Cnt: to - from}
+			for i := from; i < to; i++ {
+				e := int32(512)
+				if text[i] == ' ' {
+					e = 0
+				}
+				r.Glyphs = append(r.Glyphs, one(i, 640, e))
+				r.Adv += 640
+			}
+			return r
+		}
+		runs := c02Spacing([]c02Run{mk(0, 4), mk(4, 7)}, text, 0, 256)
+		var calls []c02Call
+		for w := 30; w <= 62; w += 2 {
+			for pol := uint8(0); pol < 2; pol++ {
+				calls = append(calls, c02Call{Policy: pol, Widths: []int{w}, Reset: true, NoTrim: true})
+				calls = append(calls, c02Call{Policy: pol, Widths: []int{w}, Reset: true, Mode: int(pol)})
+			}
+		}
+		out = append(out, c02Input{Text: text, Runs: runs, Truncator: c02Truncator(nil, 0, 0), Tag: "spacing", Calls: calls})
+	}
+	out = append(out, c02Long()...)
+	return out
+}
+
+// c02Long: paragraphs whose lines hold more than 100 run pieces in total (the initial capacity of the wrapper's line
+// storage): every word is its own run; the number of words per line is chosen so that the storage runs out in the middle of
+// a line (100 is not a multiple of 3, 6, 7) and, on the following calls with the same LineWrapper, after the storage has grown.
+func c02Long() []c02Input {
+	one := func(p int, adv int32, ext int32) c02Glyph { return c02Glyph{C: p, RC: 1, GC: 1, Adv: adv, Ext: ext} }
+	build := func(word string, words int) ([]rune, []c02Run) {
+		var text []rune
+		var runs []c02Run
+		for w := 0; w < words; w++ {
+			r := c02Run{Dir: 0, Off: len(text), Cnt: len([]rune(word))}
+			for _, c := range word {
+				e := int32(512)
+				if c == ' ' {
+					e = 0
+				}
+				r.Glyphs = append(r.Glyphs, one(len(text), 640, e))
+				r.Adv += 640
+				text = append(text, c)
+			}
+			runs = append(runs, r)
+		}
+		return text, runs
+	}
+	var out []c02Input
+	{
+		text, runs := build("ab ", 120) // 30 px per word, the trailing space of a line is not counted
+		out = append(out, c02Input{Text: text, Runs: runs, Truncator: c02Truncator(nil, 0, 0), Tag: "long", Calls: []c02Call{
+			{Widths: []int{85}, Reset: true},                        // 3 words per line, 40 lines
+			{Widths: []int{205}, Reset: true},                       // 7 words per line, after the storage has grown
+			{Widths: []int{85}, Reset: true, Mode: 1, Policy: 1},    // line by line
+			{Widths: []int{175}, Reset: true, Trunc: 30, Policy: 2}, // 6 words per line, truncated after 30 lines
+		}})
+	}
+	{
+		text, runs := build("a ", 110) // 20 px per word
+		out = append(out, c02Input{Text: text, Runs: runs, Truncator: c02Truncator(nil, 0, 0), Tag: "long", Calls: []c02Call{
+			{Widths: []int{55}, Reset: true, Mode: 1},       // 3 words per line
+			{Widths: []int{135}, Reset: true, NoTrim: true}, // 7 words per line
+		}})
 	}
 	return out
 }
